@@ -471,14 +471,18 @@ func Validate(profile CertificateProfile, content CertificateContent) bool {
 	}
 
 	if profile.SubjectAttributes.AllowOther {
-		//other attributes may appear anywhere, but mandatory ones must be there
+		//other attributes may appear anywhere, but mandatory ones must be there:
+		//each of them takes a subject attribute of its own (a profile that lists
+		//OU twice asks for two of them)
+		used := make([]bool, len(have))
 		for i, attr := range attrs {
 			if attr.Optional {
 				continue
 			}
 			found := false
-			for _, h := range have {
-				if len(want[i]) > 0 && want[i].Equal(h) {
+			for k, h := range have {
+				if !used[k] && len(want[i]) > 0 && want[i].Equal(h) {
+					used[k] = true
 					found = true
 					break
 				}
